@@ -56,7 +56,7 @@ def _required(tier):
         "plans_accepted", "plans_rejected_before_yield", "blocks_yielded", "regime:lastread<skipback", "regime:gulp>nsamps",
         "regime:block_crosses_file_boundary", "regime:partial_last_block_before_eof", "regime:gulp_not_dividing",
         "regime:start>0", "regime:skipback>gulp/2", "regime:skipback>=gulp", "overlap_audits", "spy:creadinto", "spy:seek",
-        "regime:continuation_plans_on_one_reader", "regime:packed_block_over_1KiB_odd_byte_count", "regime:names_held_another_geometry_of_equal_size", "regime:plan_abandoned_before_the_next", "regime:names_held_a_file_with_another_header_length", "consumer_overwrites_yielded_block", "plans_from_a_worker_thread",
+        "regime:continuation_plans_on_one_reader", "regime:packed_block_over_1KiB_odd_byte_count", "regime:names_held_another_geometry_of_equal_size", "regime:plan_abandoned_before_the_next", "regime:abandoned_plan_finalised_between_blocks_of_the_next", "regime:names_held_a_file_with_another_header_length", "consumer_overwrites_yielded_block", "plans_from_a_worker_thread",
     ]
 
 
@@ -367,11 +367,18 @@ def _run_plans(case, ctx, cfg, fil, Xf):
                 # the consumer looks at one block and drops the plan (break out of a loop): the next plan is served like any other
                 it = fil.read_plan(gulp=max(1, nsamps // 2), start=start, nsamps=nsamps, quiet=True, description="v")
                 next(it)
-                if ip % 2:
-                    it.close()
-                del it
+                if case["dseed"] % 4 == 3:
+                    # the dropped plan is still referenced (a local of the caller's loop) when the next plan starts, and goes away
+                    # (garbage collection / close) while that next plan is between two of its blocks
+                    _pending.append(it)
+                    del it
+                else:
+                    if ip % 2:
+                        it.close()
+                    del it
                 ctx.count("regime:plan_abandoned_before_the_next")
         check_plan(ctx, fil, Xf, cfg, bounds, gulp, start, nsamps, skipback, alloc, one)
+        _pending.clear()
 
 
 def _regime(gulp, start, nsamps, skipback):
@@ -381,6 +388,9 @@ def _regime(gulp, start, nsamps, skipback):
     if 2 * skipback > ge:
         return "gulp/2<skipback<gulp"
     return "skipback<=gulp/2"
+
+
+_pending = []      # suspended plans abandoned by their consumer but not yet finalised
 
 
 def check_plan(ctx, fil, Xf, cfg, bounds, gulp, start, nsamps, skipback, alloc, one):
@@ -414,6 +424,15 @@ def check_plan(ctx, fil, Xf, cfg, bounds, gulp, start, nsamps, skipback, alloc, 
         kw = {"allocator": alloc} if alloc is not None else {}
         for nsamps_r, ii, data in fil.read_plan(gulp=gulp, start=start, nsamps=nsamps, skipback=skipback, quiet=True, description="verif", **kw):
             blocks.append((int(nsamps_r), int(ii), np.array(data, dtype=np.float64, copy=True)))
+            if _pending:
+                import gc
+
+                old = _pending.pop()
+                if len(blocks) % 2:
+                    old.close()
+                del old
+                gc.collect()
+                ctx.count("regime:abandoned_plan_finalised_between_blocks_of_the_next")
             if (gulp + start + skipback) % 3 == 0:
                 # a consumer that uses the yielded block as scratch space (as the library's own masking does): the next block still comes from the file
                 try:
